@@ -1,0 +1,24 @@
+//go:build verif
+
+package crl
+
+import (
+	"github.com/gr33nbl00d/caddy-revocation-validator/core"
+)
+
+// VerifAddConfiguredUrls runs the provisioning step for configured crl_urls (the real addCrlUrlsFromConfig) on a
+// provisioned checker, with the given urls and certificate chains (build tag verif).
+func (c *CRLRevocationChecker) VerifAddConfiguredUrls(urls []string, chains *core.CertificateChains) error {
+	saved := c.crlConfig.CRLUrls
+	c.crlConfig.CRLUrls = urls
+	defer func() { c.crlConfig.CRLUrls = saved }()
+	return c.addCrlUrlsFromConfig(chains)
+}
+
+// VerifAddConfiguredFiles is the same for crl_files (the real addCrlFilesFromConfig).
+func (c *CRLRevocationChecker) VerifAddConfiguredFiles(files []string, chains *core.CertificateChains) error {
+	saved := c.crlConfig.CRLFiles
+	c.crlConfig.CRLFiles = files
+	defer func() { c.crlConfig.CRLFiles = saved }()
+	return c.addCrlFilesFromConfig(chains)
+}
